@@ -12,6 +12,7 @@ import (
 	"regexp"
 	"strings"
 	"testing"
+	"testing/iotest"
 	"time"
 	"unicode/utf8"
 )
@@ -466,6 +467,11 @@ func TestVerifProbe_StatefulNext(t *testing.T) {
 				}
 				if got := stream(def, b, in); got != want {
 					pr.fail("definition %s, input %q: Lex(reader) gives %s, LexString gives %s", name, in, got, want)
+				}
+				if c, err := def.Lex("file", iotest.DataErrReader(strings.NewReader(in))); err != nil {
+					pr.fail("definition %s, input %q: Lex(reader returning data together with io.EOF) fails: %v", name, in, err)
+				} else if got := stream(def, c, in); got != want {
+					pr.fail("definition %s, input %q: Lex(reader returning data together with io.EOF) gives %s, LexString gives %s", name, in, got, want)
 				}
 				// two lexers of the same definition stepped alternately
 				x, _ := def.LexString("file", in)
